@@ -85,7 +85,7 @@ mod ctl {
     use super::*;
     use std::sync::{Arc, Mutex};
     use std::time::Duration;
-    use tiny_http_vrt::sched::{DelaySched, PctSched, RandomSched, ReplaySched};
+    use tiny_http_vrt::sched::{DelaySched, DemoteSched, PctSched, RandomSched, ReplaySched};
     use tiny_http_vrt::{Execution, Kind, RunResult, Scheduler};
 
     pub struct Out {
@@ -262,6 +262,27 @@ mod ctl {
                                     stack.push(d);
                                 }
                             }
+                        }
+                    }
+                }
+                "demote" => {
+                    // one demotion, placed at every choice point in turn, over both base orders
+                    for asc in [true, false] {
+                        let mut n = 0u64;
+                        let mut at = 0usize;
+                        let mut points = 1usize;
+                        while at < points && n < max_execs / 2 {
+                            let seen = Arc::new(Mutex::new(Vec::new()));
+                            let o = run_one(&sc, Box::new(DemoteSched::new(at, asc, seen.clone())));
+                            let x = format!("{}#m{}{}", sc.id, if asc { "a" } else { "d" }, at);
+                            emit(&x, &o, "demote", 0, &mut out, &mut side);
+                            n += 1;
+                            total += 1;
+                            if !o.clean {
+                                unclean += 1;
+                            }
+                            points = points.max(seen.lock().unwrap().len());
+                            at += 1;
                         }
                     }
                 }
